@@ -151,24 +151,34 @@ def make_dim_fn(es, use):
     if use.startswith("nchw"):
         return fn_img
 
+    flags = use.split("@")[1:]
+    use = use.split("@")[0]
+    y_transposed = "yT" in flags  # the second input arrives as (3, N): N lives on axis 1 of its tensor
+    use_first = "F" in flags      # the shape-consuming computation is traced before the dimension values are materialised
+
     def fn(x, y):
-        env = {"B": x.shape[0], "N": y.shape[0]}
+        ny = y.shape[1] if y_transposed else y.shape[0]  # read from the input itself, so that N's origin is axis 1 of in_1
+        Y = (lambda: jnp.transpose(y)) if y_transposed else (lambda: y)  # only the uses that read y's data transpose it
+        env = {"B": x.shape[0], "N": ny}
         mx = lambda a, b: core.max_dim(a, b) if not (isinstance(a, int) and isinstance(b, int)) else max(a, b)
         mn = lambda a, b: core.min_dim(a, b) if not (isinstance(a, int) and isinstance(b, int)) else min(a, b)
-        vals = [dexpr_eval(e, env, mx, mn) for e in es]
-        outs = [jnp.asarray(v) for v in vals]
+        def dim_outputs():
+            return [jnp.asarray(dexpr_eval(e, env, mx, mn)) for e in es]
+
+        pre = None if use_first else dim_outputs()
+        outs = []
         if use == "reshape":
-            outs.append(jnp.reshape(x[:, None, :] * y[None, :, :], (x.shape[0] * y.shape[0], 3)).sum(axis=1))
+            outs.append(jnp.reshape(x[:, None, :] * Y()[None, :, :], (x.shape[0] * ny, 3)).sum(axis=1))
         elif use == "arange":
-            outs.append(jnp.arange(x.shape[0] + y.shape[0]) * 2)
+            outs.append(jnp.arange(x.shape[0] + ny) * 2)
         elif use == "broadcast":
-            outs.append(jnp.broadcast_to(x.sum(axis=1)[:, None], (x.shape[0], y.shape[0])))
+            outs.append(jnp.broadcast_to(x.sum(axis=1)[:, None], (x.shape[0], ny)))
         elif use == "outer":
-            outs.append(x[:, None, :] * y[None, :, :])
+            outs.append(x[:, None, :] * Y()[None, :, :])
         elif use == "flatten":
             outs.append(jnp.reshape(x, (-1,)) * 2.0)
         elif use == "concat":
-            outs.append(jnp.concatenate([x, y], axis=0))
+            outs.append(jnp.concatenate([x, Y()], axis=0))
         elif use == "zeros":
             outs.append(jnp.zeros((x.shape[0], 2)) + x[:, :2])
         # reshapes whose operand extent is a *derived* dimension (2*B, B+N): the target symbols are not dims of the operand
@@ -179,10 +189,22 @@ def make_dim_fn(es, use):
         elif use == "tile_split":
             outs.append(jnp.tile(x, (2, 1)).reshape(2, x.shape[0], 3)[1])
         elif use == "concat_xy_reshape":
-            outs.append(jnp.concatenate([x, y], axis=0).reshape(x.shape[0] + y.shape[0], 3, 1))
+            outs.append(jnp.concatenate([x, Y()], axis=0).reshape(x.shape[0] + ny, 3, 1))
         elif use == "concat_cols_split":
             outs.append(jnp.concatenate([x, x], axis=1).reshape(x.shape[0], 2, 3))
-        return tuple(outs)
+        # shape vectors made of several symbols that originate from different tensors
+        elif use == "iota2":
+            from jax import lax
+
+            outs.append(lax.broadcasted_iota(jnp.int32, (x.shape[0], ny), 1) + lax.broadcasted_iota(jnp.int32, (x.shape[0], ny), 0) * 10)
+        elif use == "tri":
+            outs.append(jnp.tri(x.shape[0], ny) * 2.0)
+        elif use == "slice_to":
+            outs.append(jnp.broadcast_to(x.sum(axis=1)[:, None], (x.shape[0], ny))[: ny, : x.shape[0]].sum(axis=1))
+        elif use == "head3":
+            outs.append((Y()[:3] * 2.0).sum(axis=1))  # min(N, 3) rows
+        dims = pre if pre is not None else dim_outputs()
+        return tuple(dims + outs)
 
     return fn
 
@@ -195,8 +217,9 @@ def check_dim_case(es, use, acc=None, bindings=PAIRS):
     fn = make_dim_fn(es, use)
     case = {"kind": "dimexpr", "es": es, "use": use}
     img = use.startswith("nchw")
+    y_t = "yT" in use.split("@")[1:]
     try:
-        model = jaxutil.to_onnx(fn, [("K", "B", "N", 3)], inputs_as_nchw=[0]) if img else jaxutil.to_onnx(fn, [("B", 3), ("N", 3)])
+        model = jaxutil.to_onnx(fn, [("K", "B", "N", 3)], inputs_as_nchw=[0]) if img else jaxutil.to_onnx(fn, [("B", 3), (3, "N") if y_t else ("N", 3)])
     except Exception as e:
         if acc:
             acc.tally("dim_status", "export_rejected")
@@ -212,6 +235,8 @@ def check_dim_case(es, use, acc=None, bindings=PAIRS):
     for B, N in bindings:
         x = (np.arange(B * 3, dtype=np.float32).reshape(B, 3) - 1) * 0.5
         y = np.arange(N * 3, dtype=np.float32).reshape(N, 3) * 0.25 + 1
+        if y_t:
+            y = np.ascontiguousarray(y.T)
         if img:
             ximg = (np.arange(2 * B * N * 3, dtype=np.float32).reshape(2, B, N, 3) * 0.01 - 0.2)
         try:
@@ -267,8 +292,11 @@ def _work_dim(sh, acc):
               phases=[Phase.generate], report_multiple_bugs=False)
     @given(st.lists(dexpr_strategy(), min_size=1, max_size=3),
            st.sampled_from(["value", "value", "reshape", "arange", "broadcast", "outer", "flatten", "concat", "zeros", "nchw_value", "nchw_bcast", "concat_split",
-                            "stack_merge", "tile_split", "concat_xy_reshape", "concat_cols_split"]))
-    def t(es, use):
+                            "stack_merge", "tile_split", "concat_xy_reshape", "concat_cols_split", "iota2", "tri", "slice_to", "head3"]),
+           st.booleans(), st.booleans())
+    def t(es, use, y_t, first):
+        if not use.startswith("nchw"):
+            use = use + ("@yT" if y_t else "") + ("@F" if first else "")
         if not any(dexpr_uses(e, "B") or dexpr_uses(e, "N") for e in es):
             acc.count("trivial_const")
             acc.case()
